@@ -132,6 +132,10 @@ _POOL = None
 def pool():
     global _POOL
     if _POOL is None:
+        # keep the inherited heap out of the children's garbage collections (copy-on-write pages)
+        import gc
+        gc.collect()
+        gc.freeze()
         ctx = multiprocessing.get_context('fork')
         _POOL = ctx.Pool(NCPU)
     return _POOL
